@@ -21,9 +21,11 @@ one() { # prop
     local ok=1
     if [[ "$patch" == *.sh ]]; then (cd $D/repo && bash $patch) >/dev/null 2>&1 || ok=0; else git -C $D/repo apply $patch >/dev/null 2>&1 || ok=0; fi
     if [ $ok = 0 ]; then echo "NOAPPLY  $name"; else
-      VERIF_REPO=$D/repo ./bin/vsim check $p --tier quick >$D/log 2>&1; rc=$?
+      # a change that only shows at thorough-tier run counts says so in its script: "# runs: N"
+      local runs=""; [[ "$patch" == *.sh ]] && runs=$(grep -o '^# runs: [0-9]*' $patch | cut -d' ' -f3)
+      VERIF_REPO=$D/repo ./bin/vsim check $p --tier quick ${runs:+--runs $runs} >$D/log 2>&1; rc=$?
       case $rc in
-        1) echo "caught   $name  $(grep -o 'rule=[^ ]* key=[^ ]*' $D/log | sort -u | head -3 | tr '\n' ' ')";;
+        1) echo "caught   $name  $(grep -a -o 'rule=[^ ]* key=[^ ]*' $D/log | sort -u | head -3 | tr '\n' ' ')";;
         0) echo "MISSED   $name";;
         *) echo "TROUBLE  $name (exit $rc)";;
       esac
